@@ -58,11 +58,11 @@ Definition mh_intact (cur nxt : list nat) (from to scratch : mems V) : mems V * 
   | [] => (mh_local cur nxt from to, scratch)
   end.
 
-Variable E : nat.
+Variable E : nat -> nat.
 Definition mh_ok (cur nxt : list nat) : bool :=
-  step_ok_b Nl nprocs d' cur nxt && forallb (fun r => mh_extent cur nxt r <=? E) (seq 0 nr).
+  step_ok_b Nl nprocs d' cur nxt && forallb (fun r => mh_extent cur nxt r <=? E r) (seq 0 nr).
 (** every rank's array has at least E cells *)
-Definition mh_Wm (m : mems V) : Prop := length m = nr /\ forall r, r < nr -> E <= length (nth r m []).
+Definition mh_Wm (m : mems V) : Prop := length m = nr /\ forall r, r < nr -> E r <= length (nth r m []).
 
 Lemma mh_Wm_len m1 m2 : same_len V m1 m2 -> mh_Wm m1 -> mh_Wm m2.
 Proof. intros [H1 H2] [H3 H4]. split; [congruence|intros r Hr; rewrite <- H2; apply H4, Hr]. Qed.
@@ -73,7 +73,7 @@ Proof. intros Hr. unfold srcf, cell. rewrite rank_of_cfun by exact Hr. reflexivi
 Lemma mh_size_sh' nxt r : size (mk (S d') (TransposeStep.sh' Nf' Pf' (pif' nxt) (cf r))) = mh_size nxt r.
 Proof. reflexivity. Qed.
 
-Lemma mh_ok_extent cur nxt r : mh_ok cur nxt = true -> r < nr -> mh_extent cur nxt r <= E.
+Lemma mh_ok_extent cur nxt r : mh_ok cur nxt = true -> r < nr -> mh_extent cur nxt r <= E r.
 Proof.
   unfold mh_ok. intros H Hr. apply andb_prop in H. destruct H as [_ H].
   rewrite forallb_forall in H. specialize (H r ltac:(apply in_seq; lia)). apply Nat.leb_le in H. exact H.
@@ -103,7 +103,7 @@ Proof.
 Qed.
 
 (** ** frame of the single steps *)
-Lemma mh_local_fr cur nxt from to : (forall r, r < nr -> mh_size nxt r <= E) -> mh_Wm to ->
+Lemma mh_local_fr cur nxt from to : (forall r, r < nr -> mh_size nxt r <= E r) -> mh_Wm to ->
   fr V dflt E to (mh_local cur nxt from to).
 Proof.
   intros HE [Hl _]. apply fr_sym. unfold mh_local. apply mat_fr. intros r A Hr HA HEA.
@@ -114,7 +114,7 @@ Theorem mh_plain_frame cur nxt from to : mh_ok cur nxt = true -> mh_Wm from -> m
   fr V dflt E from (fst (mh_plain cur nxt from to)) /\ fr V dflt E to (snd (mh_plain cur nxt from to)).
 Proof.
   intros Hok [Hlf Wf] [Hlt Wt].
-  assert (HE : forall r, r < nr -> mh_extent cur nxt r <= E) by (intros; apply mh_ok_extent; assumption).
+  assert (HE : forall r, r < nr -> mh_extent cur nxt r <= E r) by (intros; apply mh_ok_extent; assumption).
   revert HE. unfold mh_plain, mh_extent. destruct (swap_axes nprocs cur nxt) as [|a0 rest]; intros HE; cbn [fst snd].
   - split; [apply fr_refl|]. apply mh_local_fr; [exact HE|split; assumption].
   - split; apply fr_sym; apply mat_fr; intros r A Hr HA HEA.
@@ -128,7 +128,7 @@ Theorem mh_intact_frame cur nxt from to scratch : mh_ok cur nxt = true -> mh_Wm 
   fr V dflt E to (fst (mh_intact cur nxt from to scratch)) /\ fr V dflt E scratch (snd (mh_intact cur nxt from to scratch)).
 Proof.
   intros Hok _ [Hlt Wt] [Hls Ws].
-  assert (HE : forall r, r < nr -> mh_extent cur nxt r <= E) by (intros; apply mh_ok_extent; assumption).
+  assert (HE : forall r, r < nr -> mh_extent cur nxt r <= E r) by (intros; apply mh_ok_extent; assumption).
   revert HE. unfold mh_intact, mh_extent. destruct (swap_axes nprocs cur nxt) as [|a0 rest]; intros HE; cbn [fst snd].
   - split; [|apply fr_refl]. apply mh_local_fr; [exact HE|split; assumption].
   - split; apply fr_sym; apply mat_fr; intros r A Hr HA HEA.
@@ -140,7 +140,7 @@ Qed.
 
 (** ** the block prefix of dest is the output of the prefix-level model run_step *)
 Lemma mh_prefix_gen nxt (to' : mems V) (f : nat -> nat -> V) to :
-  to' = mat V f to -> mh_Wm to -> forall r A, r < nr -> A < mh_size nxt r -> mh_size nxt r <= E ->
+  to' = mat V f to -> mh_Wm to -> forall r A, r < nr -> A < mh_size nxt r -> mh_size nxt r <= E r ->
   cell V dflt to' r A = f r A.
 Proof.
   intros -> [Hl W] r A Hr HA HE. apply mat_cell; [rewrite Hl; exact Hr|]. specialize (W r Hr). lia.
